@@ -18,7 +18,7 @@ CONSTANTS MaxLeaves,     \* leaves in one argument list
           MaxWidth,      \* items per literal
           MaxListWidth,  \* items per list literal (<= MaxWidth; smaller: the bound is spent on dict entries)
           MaxArgs,       \* arguments
-          Alpha,         \* leaf alphabet: "small", "rich" (syntax-sensitive), "vals" / "core" (value-sensitive)
+          Alpha,         \* leaf alphabet: "small", "rich" (syntax-sensitive), "vals" / "core" (value-sensitive), "mixed"
           AllowInvalid,  \* generate (at most one) documented-invalid construct
           StyleFrom, StyleTo    \* slice of Styles whose texts this run exports
 
@@ -83,7 +83,7 @@ RichLeaves ==
 \* confused with "nothing" - None (variable, literal, failed lookup, item of a list), False, 0, "",
 \* a missing variable - and text with the HTML-special characters & < > ' " (plain and marked safe).
 ValLeaves ==
-  {Var("nn"), Var("None"), Var("f"), Var("True"), Var("z"), Var("es"), Str(6), Var("nope"), Var("hs.1"), Var("dh.u"),
+  {Var("nn"), Var("None"), Var("f"), Var("False"), Var("True"), Var("z"), Var("es"), Str(6), Var("nope"), Var("hs.1"), Var("dh.u"),
    Var("amp"), Var("h"), Var("sf"), Str(10), Var("hs"), Var("dn"), Var("dh"),
    Tpl(9), Tpl(10), Tpl(11), Tpl(12), Tpl(13), Tpl(14), Tpl(15), Tpl(16), Tpl(17), Tpl(18), Tpl(19), Tpl(20),
    Tpl(21), Tpl(22),
@@ -99,9 +99,13 @@ ValKeys ==
    Var("amp"), Var("h"), Var("sf"), Str(10), Tpl(9), Tpl(10), Tpl(11), Tpl(14), Tpl(21), Tpl(22),
    Filt(Var("h"), <<Fl("upper")>>), Filt(Var("hs"), <<Fl("last")>>)}
 \* the core of it, for deeper / wider lists
-CoreLeaves == {Var("nn"), Var("z"), Var("amp"), Tpl(9), Tpl(14), Var("hs"), Var("dn"), Var("dh")}
-CoreKeys   == {Var("nn"), Var("es"), Var("amp"), Tpl(10), Tpl(11)}
+\* (a key leaf is pushed like any other leaf: the key alphabets are subsets of the leaf alphabets)
+CoreLeaves == {Var("nn"), Var("z"), Var("amp"), Tpl(9), Var("hs"), Var("dn")}
+CoreKeys   == {Var("nn"), Var("z"), Var("amp")}
+ASSUME ValKeys \subseteq ValLeaves /\ CoreKeys \subseteq CoreLeaves
+\* "mixed": the small alphabet and the core together (random walks far beyond the BFS bounds)
 Leaves == CASE Alpha = "rich" -> RichLeaves [] Alpha = "vals" -> ValLeaves [] Alpha = "core" -> CoreLeaves
+            [] Alpha = "mixed" -> SmallLeaves \cup CoreLeaves
             [] OTHER -> SmallLeaves
 \* leaves allowed as a dictionary key (no filter argument: inside a dict literal the first
 \* `:` ends the key - documented restriction)
@@ -109,6 +113,7 @@ SmallKeys == {Str(4), Filt(Str(4), <<Fl("upper")>>)}
 RichKeys  == {Str(2), Str(4), Str(5), Str(6), Var("x"), Var("s"), Num("42"), Trans(1), Tpl(7),
               Filt(Str(4), <<Fl("upper")>>), Filt(Var("s"), <<Fl("upper"), Fl("lower")>>)}
 KeyLeaves == CASE Alpha = "rich" -> RichKeys [] Alpha = "vals" -> ValKeys [] Alpha = "core" -> CoreKeys
+               [] Alpha = "mixed" -> CoreKeys
                [] OTHER -> SmallKeys
 \* Keyword names are fixed per argument position (which name is used does not interact with
 \* the value): the i-th argument, if a keyword, is named KwName[i]; if an aggregate, AggName[i].
@@ -165,7 +170,7 @@ RECURSIVE PlainKeys(_, _)
 PlainKeys(items, i) ==
   IF i > Len(items) THEN TRUE
   ELSE /\ IF items[i].t = "spread"
-          THEN (IF items[i].v.t = "dict" THEN PlainKeys(items[i].v.items, 1) ELSE KwDictyLeaf(items[i].v))
+          THEN (IF items[i].v.t = "dict" THEN PlainKeys(items[i].v.items, 1) ELSE (DictyLeaf(items[i].v) => KwDictyLeaf(items[i].v)))
           ELSE items[i].t = "pair" /\ items[i].k \in {Str(4), Str(5)}
        /\ PlainKeys(items, i + 1)
 ArgKeys(a) ==
@@ -181,7 +186,10 @@ KwSeen == \E i \in 1..Len(args) : args[i].t \in {"kw", "agg", "kwspread"} \/ (ar
 Init == stk = <<>> /\ args = <<>> /\ nl = 0 /\ nc = 0 /\ bad = FALSE
 
 \* room for one more stack item: the remaining literals must be able to reduce the stack to one value
-Room == Len(args) < MaxArgs /\ Len(stk) + 1 <= 1 + (MaxCont - nc) * (MaxWidth - 1)
+\* (a value pushed right after a possible dict key will merge with it into one entry)
+KeyOnTop == Len(stk) >= 1 /\ nc < MaxCont /\ stk[Len(stk)] \in KeyLeaves
+Room == /\ Len(args) < MaxArgs
+        /\ Len(stk) + 1 <= 1 + (MaxCont - nc) * (MaxWidth - 1) + (IF KeyOnTop THEN 1 ELSE 0)
 PushLeaf(l) ==
   /\ Room /\ nl < MaxLeaves
   /\ stk' = Append(stk, l) /\ nl' = nl + 1 /\ UNCHANGED <<args, nc, bad>>
